@@ -10,6 +10,17 @@ CHECKS = {
    design="§2 C09"),
 }
 
+CHECKS["C01"] = dict(level="exploration", engine="sweep",
+   technique="bounded-exhaustive enumeration of (instance, parameters, measurement, randomness tape) on the real Prio3 code through every wire encoding, vs plain-integer aggregate",
+   text="All seven Prio3 types over a parameter lattice (every chunk length 1..len+2 for small shapes, bounds at 2^k-1/2^k/2^k+1 and p-2/p-1, aggregators up to 254, proofs up to 255) are sharded from a tape alphabet, verified by all aggregators with every message re-decoded from its wire encoding, aggregated in singleton/pair/full/tripled batches and compared with the plain aggregate reduced mod p; a second pass instantiates the same generic Prio3 code over GF(97)/GF(193)/GF(12289) where rejection sampling and refused query randomness are frequent and the only permitted failure is the specified refusal, predicted by an independent derivation.",
+   note="Sharding randomness, nonce, verify key and ctx are a fixed alphabet of tapes (32-byte seeds are not enumerable); TurboSHAKE128 is trusted.",
+   design="§2 C01")
+CHECKS["C05"] = dict(level="exploration", engine="sweep",
+   technique="exhaustive enumeration of inputs x joint/query randomness over GF(17)/GF(97) on the real generic FLP code, exact acceptance counting vs the soundness bound, all adversarial proofs for Count/GF(17)",
+   text="For every shipped circuit (and a harness-defined degree-3 circuit) instantiated over GF(17)/GF(97)/GF(193): every input vector x every joint randomness x every gadget query point (compression/prove randomness: all or alphabet, recorded per instance) goes through the real prove/query/decide; valid inputs must always be accepted, refusal must coincide exactly with r^P=1, invalid inputs are decided by exact acceptance counts against the specification's soundness bound; every proof in F^5 is tried as an adversarial prover for Count/GF(17) (<= d(P-1) accepting points); verifier linearity over share counts 1..254 and share menus; every wrong argument length in [0,declared+2] must be an Err; deployed fields: randomness lattice, all P-th roots, seeded randomness lines (pigeonhole).",
+   note="Adversarial proofs are exhaustive only for Count/GF(17); deployed-field soundness uses seeded lines (a line lies in the zero set with probability ~2^-60).",
+   design="§2 C05")
+
 NOT_APPLICABLE = {}
 
 def main():
